@@ -45,6 +45,8 @@ var c33Kinds = []string{
 	"foreign-closure", // … a closure created by the main thread
 	"foreign-stored",  // … the closure published by an earlier goroutine (created in another thread's frames)
 	"main-call",       // the main thread itself calls function, closure and stored closure
+	"go-named",        // go statement applied to a named function (no closure involved: the wrapper frame is not captured)
+	"main-block",      // the main thread calls a function whose body has a nested block with locals and an inner call
 }
 
 func c33Source(steps []c33Step) string {
@@ -53,9 +55,12 @@ func c33Source(steps []c33Step) string {
 var stored func() int
 func fglob(x int) int { y := x * 2; return y + 1 }
 func mk(k int) func() int { z := k + 1; return func() int { return z + fglob(k) } }
+func named(n int, k int) { defer func() { if e := recover(); e != nil { Pan(e) } }(); R(n, blk(k)) }
+func blk(k int) int { a := k; { b := a + 1; a = b + fglob(k); { c := a * 2; a = c - fglob(b) } }; return a }
 func Scenario() {
 	cl := mk(5)
 	stored = mk(7)
+	R(1, fglob(1)+blk(1)) // the main thread's frame pool is not empty when the first goroutine is started
 `)
 	for i, st := range steps {
 		if st.Join {
@@ -64,13 +69,13 @@ func Scenario() {
 		n := 10 * (i + 1)
 		switch st.Kind {
 		case "go-global":
-			fmt.Fprintf(&sb, "\tgo func() { R(%d, fglob(%d)) }()\n", n, n)
+			fmt.Fprintf(&sb, "\tgo func() { defer func() { if e := recover(); e != nil { Pan(e) } }(); R(%d, fglob(%d)) }()\n", n, n)
 		case "go-closure":
-			fmt.Fprintf(&sb, "\tgo func() { R(%d, cl()) }()\n", n)
+			fmt.Fprintf(&sb, "\tgo func() { defer func() { if e := recover(); e != nil { Pan(e) } }(); R(%d, cl()) }()\n", n)
 		case "go-nested":
-			fmt.Fprintf(&sb, "\tgo func() { go func() { R(%d, fglob(%d)) }(); R(%d, cl()) }()\n", n+1, n+1, n)
+			fmt.Fprintf(&sb, "\tgo func() { defer func() { if e := recover(); e != nil { Pan(e) } }(); go func() { defer func() { if e := recover(); e != nil { Pan(e) } }(); R(%d, fglob(%d)) }(); R(%d, cl()) }()\n", n+1, n+1, n)
 		case "go-make-closure":
-			fmt.Fprintf(&sb, "\tgo func() { stored = mk(%d); R(%d, stored()) }()\n", n, n)
+			fmt.Fprintf(&sb, "\tgo func() { defer func() { if e := recover(); e != nil { Pan(e) } }(); stored = mk(%d); R(%d, stored()) }()\n", n, n)
 		case "foreign-global":
 			fmt.Fprintf(&sb, "\tCallFrom(%d, func() int { return fglob(%d) })\n", n, n)
 		case "foreign-closure":
@@ -79,6 +84,10 @@ func Scenario() {
 			fmt.Fprintf(&sb, "\tCallFrom(%d, func() int { return stored() })\n", n)
 		case "main-call":
 			fmt.Fprintf(&sb, "\tR(%d, fglob(%d)+cl()+stored())\n", n, n)
+		case "go-named":
+			fmt.Fprintf(&sb, "\tgo named(%d, %d)\n", n, n)
+		case "main-block":
+			fmt.Fprintf(&sb, "\tR(%d, blk(%d))\n", n, n)
 		}
 	}
 	sb.WriteString("\tJoin()\n\tR(99, fglob(99)+cl())\n}\n")
@@ -94,20 +103,37 @@ type c33Model struct {
 	freed    []uintptr       // identities of exited threads, available for reuse
 	nextID   uintptr
 	owner    map[*fast.Run]int
+	inuse    map[*fast.Env]int // frame -> thread it is currently allocated to
 	results  []string
 	viol     []string
 	started  int
 	idReused int
+	onViol   func(msg string, schedule []int) // reports an invariant violation at once (it may be followed by a crash)
 }
 
 func newC33Model() *c33Model {
-	return &c33Model{virt: map[int]uintptr{0: 1000}, nextID: 1001, owner: map[*fast.Run]int{}}
+	return &c33Model{virt: map[int]uintptr{0: 1000}, nextID: 1001, owner: map[*fast.Run]int{}, inuse: map[*fast.Env]int{}}
 }
 
 func (m *c33Model) violate(format string, args ...interface{}) {
 	m.mu.Lock()
 	m.viol = append(m.viol, fmt.Sprintf(format, args...))
 	m.mu.Unlock()
+	m.flush()
+}
+
+// flush reports the violations recorded so far immediately.
+func (m *c33Model) flush() {
+	m.mu.Lock()
+	cb, s, n := m.onViol, m.s, len(m.viol)
+	var last string
+	if n > 0 {
+		last = m.viol[n-1]
+	}
+	m.mu.Unlock()
+	if cb != nil && s != nil && n > 0 {
+		cb(last, s.ChoicesSoFar())
+	}
 }
 
 func (m *c33Model) Enabled(parked map[int]sched.Op) []sched.Action {
@@ -208,6 +234,32 @@ func (m *c33Model) callbacks() sched.Callbacks {
 			}
 			m.owner[run] = tid
 		},
+		AllocPoints: true,
+		Alloc: func(s *sched.S, tid int, env *fast.Env, run *fast.Run, runGoid uintptr) {
+			m.mu.Lock()
+			defer m.mu.Unlock()
+			nviol := len(m.viol)
+			goid := m.virt[tid]
+			if goid != 0 && runGoid != goid {
+				m.viol = append(m.viol, fmt.Sprintf("invariant frame record: thread %s (identity %d) allocates a frame that uses the runtime record of identity %d", s.ThreadName(tid), goid, runGoid))
+			}
+			if prev, ok := m.owner[run]; ok && prev != tid && s.Alive(prev) {
+				m.viol = append(m.viol, fmt.Sprintf("invariant exclusive ownership: runtime record %p used by live threads %s and %s", run, s.ThreadName(prev), s.ThreadName(tid)))
+			}
+			m.owner[run] = tid
+			if prev, busy := m.inuse[env]; busy && prev != tid && s.Alive(prev) {
+				m.viol = append(m.viol, fmt.Sprintf("invariant exclusive frames: frame %p handed out to thread %s while thread %s still uses it", env, s.ThreadName(tid), s.ThreadName(prev)))
+			}
+			m.inuse[env] = tid
+			if len(m.viol) > nviol {
+				go m.flush()
+			}
+		},
+		FreeEnv: func(env *fast.Env) {
+			m.mu.Lock()
+			delete(m.inuse, env)
+			m.mu.Unlock()
+		},
 		Access: func(s *sched.S, tid int, g *fast.IrGlobals, write, locked bool) {
 			if !locked {
 				m.violate("lockset: thread %s touches the goroutine registry (write=%v) without the lock", s.ThreadName(tid), write)
@@ -230,8 +282,13 @@ type c33Outcome struct {
 	reused  int
 }
 
+var c33OnViol func(steps []c33Step, msg string, schedule []int)
+
 func c33Exec(steps []c33Step, prefix []int) c33Outcome {
 	m := newC33Model()
+	if c33OnViol != nil {
+		m.onViol = func(msg string, schedule []int) { c33OnViol(steps, msg, schedule) }
+	}
 	sched.Install(m.callbacks())
 	src := c33Source(steps)
 	var panicked interface{}
@@ -245,9 +302,15 @@ func c33Exec(steps []c33Step, prefix []int) c33Outcome {
 			m.results = append(m.results, fmt.Sprintf("%d=%d", k, v))
 			m.mu.Unlock()
 		})
+		ir.DeclFunc("Pan", func(e interface{}) { m.violate("thread panicked: thread %s: %v", s.Name(), e) })
 		ir.DeclFunc("Join", func() { s.Point(sched.Op{Kind: "join"}) })
 		ir.DeclFunc("CallFrom", func(k int, f func() int) {
 			s.Go(func() {
+				defer func() {
+					if e := recover(); e != nil {
+						m.violate("thread panicked: foreign thread %s: %v", s.Name(), e)
+					}
+				}()
 				v := f()
 				m.mu.Lock()
 				m.results = append(m.results, fmt.Sprintf("%d=%d", k, v))
@@ -273,10 +336,19 @@ func c33Exec(steps []c33Step, prefix []int) c33Outcome {
 func c33Expected(steps []c33Step) string {
 	fglob := func(x int) int { return x*2 + 1 }
 	mk := func(k int) func() int { return func() int { return k + 1 + fglob(k) } }
+	blk := func(k int) int {
+		a := k
+		b := a + 1
+		a = b + fglob(k)
+		c := a * 2
+		a = c - fglob(b)
+		return a
+	}
 	cl := mk(5)
 	stored := mk(7)
 	var res []string
 	add := func(k, v int) { res = append(res, fmt.Sprintf("%d=%d", k, v)) }
+	add(1, fglob(1)+blk(1))
 	for _, st := range steps {
 		if st.Kind == "go-make-closure" {
 			return "" // which closure is stored when it is called depends on the schedule: only invariants are checked
@@ -294,6 +366,8 @@ func c33Expected(steps []c33Step) string {
 			add(n, cl())
 		case "go-make-closure":
 			add(n, mk(n)())
+		case "go-named", "main-block":
+			add(n, blk(n))
 		case "foreign-stored":
 			add(n, stored())
 		case "main-call":
@@ -349,6 +423,9 @@ func c33Run(c *core.Ctx) {
 	c.Set("preemption_bound", bound)
 	c.Set("max_script_length", maxLen)
 	outcomes := map[string]bool{}
+	c33OnViol = func(steps []c33Step, msg string, schedule []int) {
+		c.Violation("C33|"+strings.SplitN(msg, ":", 2)[0], fmt.Sprintf("scenario %v after decisions %v: %s", steps, schedule, msg), c33Case{Steps: steps, Schedule: schedule})
+	}
 	for i, steps := range scen {
 		if !c.Mine(i) {
 			continue
@@ -356,9 +433,10 @@ func c33Run(c *core.Ctx) {
 		if c.Expired() {
 			break
 		}
-		// thorough: 3-step scenarios with bound 1, shorter ones with bound 2
+		// quick: 1-step scenarios with preemption bound 2, 2-step scenarios with bound 1;
+		// thorough: up to 2 steps with bound 2, 3-step scenarios with bound 1
 		b := bound
-		if len(steps) >= 3 {
+		if len(steps) >= 3 || (c.Quick() && len(steps) >= 2) {
 			b = 1
 		}
 		want := c33Expected(steps)
